@@ -84,6 +84,16 @@ def layouts():
     xdoc.add_param(d, "T8", uint(8))
     xdoc.add_container(d, "ROOT", hdr + [("p", "L"), ("p", "S"), ("p", "T8")])
     out.append(("dyn-str-signed-len", d))
+    # inheritance: a packet may end exactly where one container's entries end and its (selected) inheritor's begin
+    for root_abstract in (False, True):
+        d, hdr = header_defn()
+        for nm, w in (("A", 8), ("B", 12), ("C", 4), ("D", 8)):
+            xdoc.add_param(d, nm, uint(w))
+        always = lambda ref: {"k": "cmp", "ref": ref, "op": ">=", "cal": True, "lit": crit.lit_num(False, 0)}
+        xdoc.add_container(d, "ROOT", hdr + [("p", "A")], abstract=root_abstract)
+        xdoc.add_container(d, "CH", [("p", "B"), ("p", "C")], base="ROOT", crit_list=[always("A")])
+        xdoc.add_container(d, "GC", [("p", "D")], base="CH", crit_list=[always("C"), {"k": "cmp", "ref": "A", "op": "!=", "cal": True, "lit": crit.lit_num(False, 255)}])
+        out.append(("inheritance-chain" + ("-abstract-root" if root_abstract else ""), d))
     d, hdr = header_defn()
     xdoc.add_param(d, "REST", binp(dyn("PLEN", True, 8, 8)))       # the whole data field: 8*(PLEN+1) bits
     xdoc.add_container(d, "ROOT", hdr + [("p", "REST")])
@@ -100,7 +110,7 @@ def run(ctx):
     rng = ctx.rng
     ctx.rule = ("Decode.tla walk + generator-level classification (Trace_Decode!GenClause) run by TLC on fixed and length-dependent layouts "
                 "(binary / string widths 8*L+b with negative intercepts, signed length references, unaligned integer tails, float tails, "
-                "rest-of-packet) x well-formed CCSDS packets whose data field is shorter than / equal to / longer than what the layout "
+                "rest-of-packet, three-level inheritance chains whose containers end on packet boundaries) x well-formed CCSDS packets whose data field is shorter than / equal to / longer than what the layout "
                 "consumes x every value of the length byte that matters (incl. those making a width negative). Each packet is run alone "
                 "through the real packet_generator with parse_bad_pkts True and False; observed (items, warning, exception) must match "
                 "the classification of the model's end state: clean iff status ok and cursor = packet bits; poisoned (out-of-bounds or "
